@@ -167,9 +167,12 @@ func (p *c08) Init(tier string) {
 	p.docs = append(p.docs, []any{[]any{}, []any{[]any{}}}, []any{})
 }
 
-func (p *c08) NumCases() int { return len(c08Queries) * 6 }
+func (p *c08) NumCases() int { return len(c08Queries)*6 + 1 }
 
 func (p *c08) Describe(i int) any {
+	if i == len(c08Queries)*6 {
+		return map[string]any{"kind": "the nested source changed between two executions of one Query: an inner array (at depth 2 and 3) replaced by another one, emptied, a row edited in place, the inner arrays swapped - 5 queries x 3 documents x 9 changes; the second execution must equal a fresh query"}
+	}
 	kind := []string{"nested result vs per-inner-array executions", "mix=> + one query vs concatenation of the inner results",
 		"nested result over the ranged source m[(1:end)] vs per-inner-array executions", "mix=>m[(1:end)] + one query vs concatenation of the inner results",
 		"nested result over m[keep=>(1:end)] vs per-inner-array executions", "mix=>m[keep=>(1:end)] + one query vs concatenation of the inner results"}[i/len(c08Queries)]
@@ -254,6 +257,10 @@ func (p *c08) RunCase(i int) *core.CaseResult {
 	defer withNoise()()
 	r := &core.CaseResult{}
 	defer withUsage(r, "C08")()
+	if i == len(c08Queries)*6 {
+		runChangedC08(r)
+		return r
+	}
 	q := c08Queries[i%len(c08Queries)]
 	variant := i / len(c08Queries)
 	mix := variant == 1 || variant == 3 || variant == 5
